@@ -145,12 +145,22 @@ Definition member_str (m : member) : string :=
 Definition f_ident (n : nat) : string := "f" ^^ nat_to_string n.
 
 (* Index::parse on the head literal.  Ok (Some n): an unsuffixed u32; Ok None: not an index. *)
+Fixpoint has_char (c : ascii) (s : string) : bool :=
+  match s with EmptyString => false | String x r => Ascii.eqb x c || has_char c r end.
+Definition radix_prefix (s : string) : bool :=
+  match s with
+  | String "0" (String c _) => Ascii.eqb c "x" || Ascii.eqb c "o" || Ascii.eqb c "b"
+  | _ => false
+  end.
 Definition lit_index (s : string) : res (option nat) :=
   if starts_with_digit s then
-    match canonical_index s with
-    | Some n => Ok (Some n)
-    | None => Oom "non-canonical numeric literal in member position"
-    end
+    if all_digits s then
+      match canonical_index s with
+      | Some n => Ok (Some n)
+      | None => Oom "non-canonical numeric literal in member position"
+      end
+    else if has_char "_" s || radix_prefix s then Oom "non-canonical numeric literal in member position"
+    else Ok None   (* float, or integer with a suffix: not an Index *)
   else Ok None.
 
 (* peek_member: Ident, or a fork parses as Index *)
